@@ -68,7 +68,7 @@ pub struct Stats {
 }
 
 /// Check one program text. Returns false if the case had to be discarded.
-pub fn check_text(name: &str, text: &str, rng: &mut Rng, acc: &mut Acc, n_random_sets: usize, max_roots: usize) -> bool {
+pub fn check_text(name: &str, text: &str, rng: &Rng, acc: &mut Acc, n_random_sets: usize, max_roots: usize) -> bool {
     let su = match solang_parser::parse(text, 0) {
         Ok((su, _)) => su,
         Err(_) => {
